@@ -5,6 +5,7 @@
 import Hg.Driver.Wire
 import Hg.Model.Eqv
 import Hg.Model.WF
+import Hg.Model.Immut
 
 namespace Hg.Proto
 open Hg Hg.Wire
@@ -225,6 +226,22 @@ def step (pool : Pool) (cmd : Json) : Pool × Json :=
       match (strOf? h1).bind pool.get?, (strOf? h2).bind pool.get? with
       | some a, some b => (pool, .bool (sameBase a b))
       | _, _ => (pool, err "bad samebase")
+    | "$uniform", [h] =>
+      match (strOf? h).bind pool.get? with
+      | some a => (pool, .bool (uniform a))
+      | none => (pool, err "no handle")
+    | "$immut", [hn, h] =>
+      match strOf? hn, (strOf? h).bind pool.get? with
+      | some hn, some a => (pool.set hn (immut a), .str "$ok")
+      | _, _ => (pool, err "bad immut")
+    | "$same", [h1, h2] =>
+      match (strOf? h1).bind pool.get?, (strOf? h2).bind pool.get? with
+      | some a, some b => (pool, .bool (decide (a = b)))
+      | _, _ => (pool, err "bad same")
+    | "$compat", [h1, h2] =>
+      match (strOf? h1).bind pool.get?, (strOf? h2).bind pool.get? with
+      | some a, some b => (pool, .bool (compat a b))
+      | _, _ => (pool, err "bad compat")
     | "$drop", [h] =>
       match strOf? h with
       | some h => (pool.filter (·.1 ≠ h), .str "$ok")
